@@ -464,7 +464,16 @@ func runC19(r *rep.R) {
 		tag := fmt.Sprint(workloads)
 		maxPoints, execs := 0, 0
 		stop := false
-		var rec func(x *sexec, from int, top bool)
+		// Work is divided between worker processes by subtree: at the first
+		// deviation when bound is 1, at the second when it is larger (subtrees under
+		// one first deviation differ in size by orders of magnitude; every worker then
+		// runs the few hundred first-level executions itself, and only the owner of
+		// each judges it).
+		shardLevel := 0
+		if bound > 1 {
+			shardLevel = 1
+		}
+		var rec func(x *sexec, from int, level int)
 		check := func(x *sexec) {
 			execs++
 			r.Trace()
@@ -505,7 +514,7 @@ func runC19(r *rep.R) {
 				return k2 == k
 			})
 		}
-		rec = func(x *sexec, from int, top bool) {
+		rec = func(x *sexec, from int, level int) {
 			for i := from; i < len(x.points) && !stop; i++ {
 				p := x.points[i]
 				cost := x.preemptionsBefore(i)
@@ -517,15 +526,19 @@ func runC19(r *rep.R) {
 					if c > bound {
 						continue
 					}
-					if top {
+					own := true
+					if level <= shardLevel {
 						idx++
-						if !r.Mine(idx) {
+						own = r.Mine(idx)
+						if !own && level == shardLevel {
 							continue
 						}
 					}
 					y := c19Run(workloads, append(append([]int{}, x.choices[:i]...), alt))
-					check(y)
-					rec(y, i+1, false)
+					if own {
+						check(y)
+					}
+					rec(y, i+1, level+1)
 				}
 			}
 		}
@@ -534,7 +547,7 @@ func runC19(r *rep.R) {
 		if r.Mine(idx) {
 			check(x)
 		}
-		rec(x, 0, true)
+		rec(x, 0, 0)
 		_ = maxPoints
 	}
 	k := 1
